@@ -316,13 +316,15 @@ func TestC05DefaultPathFinding(t *testing.T) {
 type admCfg struct {
 	Hook      string // none | accept | reject
 	HookMsg   string
+	// PreflightContinue: a CORS policy is configured that passes OPTIONS requests on to the engine's own checks
+	PreflightContinue bool
 	MW        string // none | ok | fail
 	AllowEIO3 bool
 	Enabled   string // pw | p | w | pwt
 }
 
 func (c admCfg) String() string {
-	return fmt.Sprintf("{hook=%s(%q) middleware=%s allowEIO3=%v transports=%s}", c.Hook, c.HookMsg, c.MW, c.AllowEIO3, c.Enabled)
+	return fmt.Sprintf("{hook=%s(%q) middleware=%s allowEIO3=%v transports=%s corsPreflightContinue=%v}", c.Hook, c.HookMsg, c.MW, c.AllowEIO3, c.Enabled, c.PreflightContinue)
 }
 
 func (c admCfg) enabled(tr string) bool {
@@ -451,6 +453,9 @@ func newAdmWorld(cfg admCfg) (*admWorld, error) {
 	}
 	o.SetTransports(types.NewSet(set...))
 	o.SetAllowEIO3(cfg.AllowEIO3)
+	if cfg.PreflightContinue {
+		o.SetCors(&types.Cors{Origin: "*", PreflightContinue: true})
+	}
 	aw := &admWorld{cfg: cfg}
 	hookOn := false
 	switch cfg.Hook {
@@ -604,7 +609,7 @@ func (aw *admWorld) instantiate(rt *rapid.T, r admReq) (admConcrete, string) {
 	h := http.Header{}
 	switch r.Origin {
 	case "valid":
-		h.Set("Origin", pick("origin", "https://example.test", "http://localhost:3000", "null", "https://a.b.c:8443", "chrome-extension://abc", "https://exa mple.test\t"))
+		h.Set("Origin", pick("origin", "https://example.test", "http://localhost:3000", "null", "https://a.b.c:8443", "chrome-extension://abc", "https://exa mple.test\t", "https://łódź.example", "http://zażółć.pl:8080", "https://例え.test", "https://\u0080\u009f.example", "https://münchen.example"))
 	case "ctl":
 		ctl := pick("ctl", "\x00", "\x01", "\x7f", "\r", "\n", "\x1f", "\x0b")
 		pos := pick("ctlPos", "mid", "start", "end")
@@ -697,6 +702,9 @@ func (aw *admWorld) runCell(rt *rapid.T, r admReq) (exp admExpect, fail string) 
 			}
 			if s.HeaderCalls != 1 || !s.Returned {
 				return exp, fmt.Sprintf("%s: rejected request got %d header writes, handler returned=%v", desc, s.HeaderCalls, s.Returned)
+			}
+			if cl := hdrGet(s.Header, "Content-Length"); cl != "" && cl != fmt.Sprint(len(s.Body)) {
+				return exp, fmt.Sprintf("%s: Content-Length %q for a body of %d bytes", desc, cl, len(s.Body))
 			}
 		}
 		if len(newErrs) != 1 {
@@ -929,6 +937,10 @@ func propC05Admission(t *testing.T, col *Collector, known5 bool) func(rt *rapid.
 			MW:        rapid.SampledFrom([]string{"none", "none", "ok", "ok", "ok", "fail"}).Draw(rt, "mw"),
 			AllowEIO3: rapid.Bool().Draw(rt, "allowEIO3"),
 			Enabled:   rapid.SampledFrom(admEnabled).Draw(rt, "enabled"),
+		}
+		cfg.PreflightContinue = rapid.IntRange(0, 3).Draw(rt, "corsPreflightContinue") == 0
+		if cfg.PreflightContinue {
+			col.Class("cors-preflight-continue")
 		}
 		if cfg.Hook == "reject" {
 			cfg.HookMsg = rapid.OneOf(
